@@ -26,7 +26,10 @@ FAMILIES = {
     "name": ["KNameDict", "KNameFrame", "KNamePolars"],
 }
 PCOL = "PATH"
-KEY_TYPES = {"x": "int", "y": "int", "s": "str", "b": "bool", "name": "str"}
+KEY_TYPES = {"x": "int", "y": "int", "s": "str", "b": "bool", "name": "str",
+             # attribute names that are not Python identifiers / look private / are keywords
+             "age group": "int", "unit-cost": "int", "_flag": "bool", "class": "str", "2024": "int"}
+ODD_KEYS = ["age group", "unit-cost", "_flag", "class", "2024"]
 
 
 def coq_header(prop):
@@ -68,11 +71,30 @@ def _canon(v):
     raise ValueError("attribute value of unexpected type %s" % tn)
 
 
+_PRIVATE = {"name", "_sep", "_BaseNode__parent", "_BaseNode__children"}
+
+
 def _attrs(n):
-    return sorted([k, _canon(v)] for k, v in vars(n).items() if not k.startswith("_") and k != "name")
+    # everything in the instance dict except the four fields Node/BaseNode keep there themselves
+    return sorted([k, _canon(v)] for k, v in vars(n).items() if k not in _PRIVATE)
 
 
-def _observe(root, nodes):
+_CLS = {}
+
+
+def _node_class(case):
+    """Node, or a user subclass of Node (created nodes must be of the class of the tree / of node_type)"""
+    from bigtree.node.node import Node
+    if case.get("opt", {}).get("cls") != "sub":
+        return Node
+    if "sub" not in _CLS:
+        class CNode(Node):
+            pass
+        _CLS["sub"] = CNode
+    return _CLS["sub"]
+
+
+def _observe(root, nodes, cls):
     idx = {id(n): i for i, n in enumerate(nodes)}
     out = []
     order = {}
@@ -82,8 +104,14 @@ def _observe(root, nodes):
         nm = n.node_name
         if not isinstance(nm, str):
             raise ValueError("node name of type %s" % type(nm).__name__)
+        if type(n) is not cls:
+            raise ValueError("node %r is a %s, expected %s" % (nm, type(n).__name__, cls.__name__))
+        if n.parent is not None and not any(c is n for c in n.parent.children):
+            raise ValueError("node %r is not among the children of its parent" % nm)
         out.append([d, idx.get(id(n)), str(nm), _attrs(n)])
         for c in n.children:
+            if c.parent is not n:
+                raise ValueError("child %r does not point back to its parent" % c.node_name)
             walk(c, d + 1)
 
     walk(root, 1)
@@ -91,11 +119,11 @@ def _observe(root, nodes):
 
 
 def _build(case):
-    from bigtree.node.node import Node
+    cls = _node_class(case)
     nodes, stack = [], []
     for depth, name, attrs in case["tree"]:
         kw = {k: v for k, v in attrs}
-        n = Node(name, sep=case["tsep"], **kw) if depth == 1 else Node(name, **kw)
+        n = cls(name, sep=case["tsep"], **kw) if depth == 1 else cls(name, **kw)
         if depth > 1:
             n.parent = stack[depth - 2]
         del stack[depth - 1:]
@@ -113,78 +141,188 @@ def _columns(rows):
     return cols
 
 
-def _pandas(rows, idcol):
+EXTRA_COL = "zz unlisted"
+
+
+def _frame_layout(case, idcol, all_rows):
+    """column order of the frame and the keyword arguments naming the id / attribute columns.
+    The columns are those of the whole row list (also when it is handed over in two batches)."""
+    opt = case.get("opt", {})
+    cols = _columns(all_rows)
+    kw = {}
+    order = [idcol] + cols
+    if opt.get("pcol_pos") == "last":
+        order = cols + [idcol]
+    id_kw = "name_col" if case["family"] == "name" else "path_col"
+    if opt.get("pcol_pos") == "last" or opt.get("explicit_cols"):
+        kw[id_kw] = idcol
+    if opt.get("explicit_cols") and cols:
+        kw["attribute_cols"] = list(reversed(cols)) if opt.get("rev_cols") else list(cols)
+        if opt.get("extra_col"):
+            order = order + [EXTRA_COL]
+    return cols, order, kw
+
+
+def _cell(a, c, i):
+    if c == EXTRA_COL:
+        return i + 1
+    return dict(a).get(c)
+
+
+def _pandas(case, rows, idcol, all_rows):
     import pandas as pd
-    cols = _columns(rows)
+    cols, order, kw = _frame_layout(case, idcol, all_rows)
     if not rows:
-        return pd.DataFrame(columns=[idcol] + cols)
-    return pd.DataFrame([[p] + [dict(a).get(c) for c in cols] for p, a in rows], columns=[idcol] + cols)
+        return pd.DataFrame(columns=order), kw
+    df = pd.DataFrame([[p if c == idcol else _cell(a, c, i) for c in order] for i, (p, a) in enumerate(rows)],
+                      columns=order)
+    ix = case.get("opt", {}).get("index", "range")
+    if ix == "repeat":
+        df.index = [i // 2 for i in range(len(rows))] if len(rows) > 2 else [0] * len(rows)
+    elif ix == "str":
+        df.index = ["r%d" % (i % 2) for i in range(len(rows))]
+    return df, kw
 
 
-def _polars(rows, idcol):
+def _polars(case, rows, idcol, all_rows):
     import polars as pl
     ty = {"int": pl.Int64, "str": pl.String, "bool": pl.Boolean}
-    cols = _columns(rows)
-    schema = {idcol: pl.String}
-    data = {idcol: [p for p, _ in rows]}
-    for c in cols:
-        schema[c] = ty[KEY_TYPES[c]]
-        data[c] = [dict(a).get(c) for _, a in rows]
-    return pl.DataFrame(data, schema=schema)
+    cols, order, kw = _frame_layout(case, idcol, all_rows)
+    schema, data = {}, {}
+    for c in order:
+        if c == idcol:
+            schema[c] = pl.String
+            data[c] = [p for p, _ in rows]
+        elif c == EXTRA_COL:
+            schema[c] = pl.Int64
+            data[c] = [i + 1 for i in range(len(rows))]
+        else:
+            schema[c] = ty[KEY_TYPES[c]]
+            data[c] = [dict(a).get(c) for _, a in rows]
+    return pl.DataFrame(data, schema=schema), kw
 
 
 def _as_dict(rows):
     return {p: {k: v for k, v in a} for p, a in rows}
 
 
+def _dict_snapshot(d):
+    return [(k, list(v.items())) for k, v in d.items()]
+
+
+def _call(kind, case, C, start, rows, all_rows, cls):
+    """one call of the entry point; returns (returned nodes, post-check) where post-check verifies that the
+    caller's argument objects were left as they were and then mutates them (a result that aliases an
+    argument object would change with it)"""
+    sep, dup = case["sep"], case["dup"]
+    opt = case.get("opt", {})
+    pcol = opt.get("pcol", "NAME" if case["family"] == "name" else PCOL)
+    nt = {"node_type": cls} if opt.get("cls") == "sub" else {}
+    if kind == "KList":
+        paths = [p for p, _ in rows]
+        arg = tuple(paths) if opt.get("container") == "tuple" else list(paths)
+        ret = [C.list_to_tree(arg, sep=sep, duplicate_name_allowed=dup, **nt)]
+
+        def post():
+            if list(arg) != paths:
+                raise ValueError("the paths argument was modified by the call")
+            if isinstance(arg, list):
+                arg.append(sep.join(["zzmut", "zz"]))
+        return ret, post
+    if kind in ("KDict", "KAddDict", "KNameDict"):
+        d = _as_dict(rows)
+        snap = _dict_snapshot(d)
+        if kind == "KDict":
+            ret = [C.dict_to_tree(d, sep=sep, duplicate_name_allowed=dup, **nt)]
+        elif kind == "KAddDict":
+            ret = [C.add_dict_to_tree_by_path(start, d, sep=sep, duplicate_name_allowed=dup)]
+        else:
+            ret = [C.add_dict_to_tree_by_name(start, d)]
+
+        def post():
+            if _dict_snapshot(d) != snap:
+                raise ValueError("the dictionary argument was modified by the call")
+            for v in d.values():
+                v["zzmut"] = 1
+        return ret, post
+    if kind == "KAddPath":
+        ret, dicts = [], []
+        for p, a in rows:
+            na = {k: v for k, v in a}
+            dicts.append((na, list(na.items())))
+            if not a and opt.get("omit_empty_attrs"):
+                ret.append(C.add_path_to_tree(start, p, sep=sep, duplicate_name_allowed=dup))
+            else:
+                ret.append(C.add_path_to_tree(start, p, sep=sep, duplicate_name_allowed=dup, node_attrs=na))
+
+        def post():
+            for na, snap in dicts:
+                if list(na.items()) != snap:
+                    raise ValueError("a node_attrs argument was modified by the call")
+                na["zzmut"] = 1
+        return ret, post
+    pandas = kind in ("KFrame", "KAddFrame", "KNameFrame")
+    frame, kw = (_pandas if pandas else _polars)(case, rows, pcol, all_rows)
+    copy = frame.copy() if pandas else frame.clone()
+    if kind == "KFrame":
+        ret = [C.dataframe_to_tree(frame, sep=sep, duplicate_name_allowed=dup, **kw, **nt)]
+    elif kind == "KPolars":
+        ret = [C.polars_to_tree(frame, sep=sep, duplicate_name_allowed=dup, **kw, **nt)]
+    elif kind == "KAddFrame":
+        ret = [C.add_dataframe_to_tree_by_path(start, frame, sep=sep, duplicate_name_allowed=dup, **kw)]
+    elif kind == "KAddPolars":
+        ret = [C.add_polars_to_tree_by_path(start, frame, sep=sep, duplicate_name_allowed=dup, **kw)]
+    elif kind == "KNameFrame":
+        ret = [C.add_dataframe_to_tree_by_name(start, frame, **kw)]
+    elif kind == "KNamePolars":
+        ret = [C.add_polars_to_tree_by_name(start, frame, **kw)]
+    else:
+        raise KeyError(kind)
+
+    def post():
+        same = (frame.equals(copy) and list(frame.index) == list(copy.index) and list(frame.columns) == list(copy.columns)
+                ) if pandas else (frame.equals(copy) and frame.columns == copy.columns)
+        if not same:
+            raise ValueError("the frame argument was modified by the call")
+    return ret, post
+
+
+def _split_of(kind, case):
+    n = case.get("opt", {}).get("split", 0)
+    if n and kind in ("KAddDict", "KAddFrame", "KAddPolars", "KNameDict", "KNameFrame", "KNamePolars") and 0 < n < len(case["rows"]):
+        return n
+    return 0
+
+
 def _run_kind(kind, case):
     from bigtree.tree import construct as C
-    sep, dup, rows = case["sep"], case["dup"], case["rows"]
+    sep, rows = case["sep"], case["rows"]
+    cls = _node_class(case)
     nodes = _build(case) if case["tree"] else []
     start = nodes[case["start"]] if nodes else None
     code, rets, root = 0, [], (nodes[0] if nodes else None)
+    split = _split_of(kind, case)
+    batches = [rows[:split], rows[split:]] if split else [rows]
+    posts = []
     try:
-        if kind == "KList":
-            root = C.list_to_tree([p for p, _ in rows], sep=sep, duplicate_name_allowed=dup)
-            rets = [root]
-        elif kind == "KDict":
-            root = C.dict_to_tree(_as_dict(rows), sep=sep, duplicate_name_allowed=dup)
-            rets = [root]
-        elif kind == "KFrame":
-            root = C.dataframe_to_tree(_pandas(rows, PCOL), sep=sep, duplicate_name_allowed=dup)
-            rets = [root]
-        elif kind == "KPolars":
-            root = C.polars_to_tree(_polars(rows, PCOL), sep=sep, duplicate_name_allowed=dup)
-            rets = [root]
-        elif kind == "KAddPath":
-            for p, a in rows:
-                rets.append(C.add_path_to_tree(start, p, sep=sep, duplicate_name_allowed=dup,
-                                               node_attrs={k: v for k, v in a}))
-        elif kind == "KAddDict":
-            rets = [C.add_dict_to_tree_by_path(start, _as_dict(rows), sep=sep, duplicate_name_allowed=dup)]
-        elif kind == "KAddFrame":
-            rets = [C.add_dataframe_to_tree_by_path(start, _pandas(rows, PCOL), sep=sep, duplicate_name_allowed=dup)]
-        elif kind == "KAddPolars":
-            rets = [C.add_polars_to_tree_by_path(start, _polars(rows, PCOL), sep=sep, duplicate_name_allowed=dup)]
-        elif kind == "KNameDict":
-            rets = [C.add_dict_to_tree_by_name(start, _as_dict(rows))]
-        elif kind == "KNameFrame":
-            rets = [C.add_dataframe_to_tree_by_name(start, _pandas(rows, "NAME"))]
-        elif kind == "KNamePolars":
-            rets = [C.add_polars_to_tree_by_name(start, _polars(rows, "NAME"))]
-        else:
-            raise KeyError(kind)
+        for b in batches:
+            rets, post = _call(kind, case, C, start, b, rows, cls)
+            posts.append(post)
+        if kind in FAMILIES["new"]:
+            root = rets[0]
     except Exception as e:  # noqa
         code = exn_code(e)
         rets = []
         if kind in FAMILIES["new"]:
             root = None
     if root is None:
-        return {"kind": kind, "code": code, "sep": sep, "tree": [], "rets": []}
+        return {"kind": kind, "code": code, "sep": sep, "tree": [], "rets": [], "split": split}
+    for post in posts:
+        post()
     top = root.root
-    tree, order = _observe(top, nodes)
+    tree, order = _observe(top, nodes, cls)
     return {"kind": kind, "code": code, "sep": top.sep, "tree": tree,
-            "rets": [order.get(id(r), 10 ** 6) for r in rets]}
+            "rets": [order.get(id(r), 10 ** 6) for r in rets], "split": split}
 
 
 def run_impl(prop, case):
@@ -221,9 +359,9 @@ def emit(prop, case, obs):
     tree = [[d, i, n, a] for i, (d, n, a) in enumerate(case["tree"])]
     rows = clist(cpair(cstr(p), _cattrs(a)) for p, a in case["rows"])
     obl = clist(
-        f"CO {o['kind']} {int(o['code'])} ({cstr(o['sep'])}) ({_ctree(o['tree'])}) ({clist(str(min(int(r), 999)) for r in o['rets'])})"
+        f"CO {o['kind']} {int(o['code'])} ({cstr(o['sep'])}) ({_ctree(o['tree'])}) ({clist(str(min(int(r), 999)) for r in o['rets'])}) {int(o.get('split', 0))}"
         for o in obs["obs"])
-    pcol = "NAME" if case["family"] == "name" else PCOL
+    pcol = case.get("opt", {}).get("pcol", "NAME" if case["family"] == "name" else PCOL)
     return (f"CC ({cstr(case['sep'])}) {cbool(case['dup'])} ({cstr(case['tsep'])}) ({_ctree(tree)}) "
             f"{int(case['start'])} ({cstr(pcol)}) ({rows}) ({obl})")
 
@@ -293,11 +431,13 @@ def gen_shape(rng, shape, pool, nmax):
     return nodes
 
 
-def gen_attrs(rng, allow_name, rate=0.55):
+def gen_attrs(rng, allow_name, rate=0.55, odd=False):
     if rng.random() > rate:
         return []
     out = []
     keys = ["x", "s", "y", "b"] + (["name"] if allow_name else [])
+    if odd:
+        keys = ["x", "s"] + ODD_KEYS + (["name"] if allow_name else [])
     rng.shuffle(keys)
     for k in keys[: rng.randint(1, 3)]:
         t = KEY_TYPES[k]
@@ -330,6 +470,8 @@ def render(rng, path, sep, deco=True):
             s = sep + s + sep
         elif r < 0.5:
             s = sep + sep + s
+        elif r < 0.53:
+            s = s + sep + sep
     return s
 
 
@@ -361,9 +503,79 @@ def gen_suffix_trap(rng):
     return case
 
 
+def gen_opt(rng, case):
+    """how the arguments are handed over: node class, container type, frame layout, index labels, double call"""
+    fam = case["family"]
+    opt = {}
+    if rng.random() < 0.25:
+        opt["cls"] = "sub"
+    if rng.random() < 0.3:
+        opt["container"] = "tuple"
+    if rng.random() < 0.4:
+        opt["pcol"] = rng.choice(["node name", "n", "0"] if fam == "name" else ["path col", "p", "0"])
+    if rng.random() < 0.3:
+        opt["pcol_pos"] = "last"
+    if rng.random() < 0.3:
+        opt["explicit_cols"] = True
+        opt["rev_cols"] = rng.random() < 0.5
+        opt["extra_col"] = rng.random() < 0.5
+    opt["index"] = rng.choice(["range", "range", "range", "repeat", "str"])
+    opt["omit_empty_attrs"] = rng.random() < 0.5
+    if fam in ("add", "name") and len(case["rows"]) >= 2 and rng.random() < 0.2:
+        opt["split"] = rng.randint(1, len(case["rows"]) - 1)
+    case["opt"] = opt
+    return case
+
+
+def gen_nodup_deep(rng):
+    """duplicate names disallowed, paths of depth >= 4, input separator different from the tree's own, and
+    (sometimes) a name repeated deep below an intermediate node that the same path creates"""
+    pool = NAME_POOLS["distinct"]
+    names = pool[:]
+    rng.shuffle(names)
+    root = names.pop()
+    sep = rng.choice(SEPS)
+    family = rng.choice(["new", "add", "add"])
+    paths = []
+    for _ in range(rng.randint(1, 3)):
+        depth = rng.randint(3, 6)
+        start = rng.choice(paths)[: rng.randint(1, 3)] if paths and rng.random() < 0.5 else [root]
+        p = list(start)
+        while len(p) < depth + 1 and names:
+            p.append(names.pop())
+        paths.append(p)
+    stratum = f"{family}/nodupdeep/distinct"
+    if rng.random() < 0.45:
+        # repeat a name that exists elsewhere (or earlier in the same path) at depth >= 3
+        victim = rng.choice(paths)
+        donor = rng.choice(paths)
+        dup_name = rng.choice(donor[1:]) if len(donor) > 1 else donor[0]
+        extra = victim[: rng.randint(1, len(victim) - 1)] + ["q" + str(len(paths)), "w" + str(len(paths)), dup_name]
+        paths.insert(rng.randint(0, len(paths)), extra)
+        stratum += "/repeat"
+    case = {"family": family, "sep": sep, "dup": False, "tsep": "/", "tree": [], "start": 0,
+            "kinds": list(FAMILIES[family]), "stratum": stratum}
+    if family == "add":
+        keep = [[root]]
+        base = rng.choice(paths)
+        for k in range(2, rng.randint(2, len(base))):
+            keep.append(base[:k])
+        case["tree"] = [[len(p), p[-1], gen_attrs(rng, False, 0.3)] for p in keep]
+        case["tsep"] = rng.choice([s for s in SEPS if s != sep])
+        case["start"] = rng.randrange(len(keep))
+    case["rows"] = [[render(rng, p, sep), gen_attrs(rng, False, 0.4)] for p in paths]
+    return case
+
+
 def gen_case(rng, family=None):
+    return gen_opt(rng, _gen_case(rng, family))
+
+
+def _gen_case(rng, family=None):
     if family is None and rng.random() < 0.04:
         return gen_suffix_trap(rng)
+    if family is None and rng.random() < 0.06:
+        return gen_nodup_deep(rng)
     family = family or rng.choice(["new", "new", "add", "add", "add", "name"])
     pool_name = rng.choice(list(NAME_POOLS))
     pool = NAME_POOLS[pool_name]
@@ -373,6 +585,7 @@ def gen_case(rng, family=None):
     sep = pick_sep(rng, names)
     dup = rng.random() < 0.6
     allow_name = rng.random() < 0.08
+    odd = rng.random() < 0.25
     case = {"family": family, "sep": sep, "dup": dup, "tsep": "/", "tree": [], "start": 0,
             "kinds": list(FAMILIES[family]), "stratum": f"{family}/{shape}/{pool_name}"}
 
@@ -384,7 +597,7 @@ def gen_case(rng, family=None):
         cand = names + ["zq"]
         rng.shuffle(cand)
         for nm in cand[: rng.randint(0 if rng.random() < 0.06 else 1, 5)]:
-            rows.append([nm, gen_attrs(rng, allow_name, 0.85)])
+            rows.append([nm, gen_attrs(rng, allow_name, 0.85, odd)])
         if rows and rng.random() < 0.3:
             r = rng.choice(rows)
             rows.insert(rng.randint(0, len(rows)),
@@ -401,12 +614,12 @@ def gen_case(rng, family=None):
         rng.shuffle(chosen)
     rows = []
     for p in chosen:
-        rows.append([render(rng, p, sep), gen_attrs(rng, allow_name)])
+        rows.append([render(rng, p, sep), gen_attrs(rng, allow_name, 0.55, odd)])
     # repetitions of a path (other spelling of the leading/trailing separator); mostly with the same
     # attributes (frames accept those), sometimes with different ones (frames must refuse, dicts overwrite)
     for _ in range(rng.choice([0, 0, 0, 1, 2])):
         k = rng.randrange(len(rows))
-        attrs = [list(kv) for kv in rows[k][1]] if rng.random() < 0.65 else gen_attrs(rng, allow_name)
+        attrs = [list(kv) for kv in rows[k][1]] if rng.random() < 0.65 else gen_attrs(rng, allow_name, 0.55, odd)
         at = rng.randint(0, len(rows))
         rows.insert(at, [render(rng, chosen[k], sep), attrs])
         chosen.insert(at, chosen[k])
@@ -506,6 +719,11 @@ def generate(prop, rng, tier):
 
 def shrink_candidates(prop, case):
     rows = case["rows"]
+    for key in sorted(case.get("opt", {})):
+        if case["opt"][key] not in (False, "range", None):
+            c = dict(case)
+            c["opt"] = {k: v for k, v in case["opt"].items() if k != key}
+            yield c
     if len(case["kinds"]) > 1:
         for k in case["kinds"]:
             c = dict(case)
@@ -566,12 +784,22 @@ def sample(prop, case, obs):
 
 def rule(prop):
     return ("row lists derived from random name tries (<= 12 nodes; shapes wide/deep/mixed/path/star; name pools "
-            "distinct/repeated/affix/special; 5 single-character separators with optional leading/trailing separator; "
-            "attribute dicts with nulls and falsy values; malformed: wrong root, empty component, no rows) fed to all "
-            "entry points of a family (new: list/dict/dataframe/polars_to_tree; add: add_path_to_tree + "
-            "add_{dict,dataframe,polars}_to_tree_by_path on a pre-existing tree; name: add_*_to_tree_by_name); "
-            "non-trivial = non-empty row list and (an accepted call yielding >= 3 nodes or a refused call); "
-            "distinct by canonical JSON hash")
+            "distinct/repeated/affix/special; 5 single-character separators with optional (double) leading/trailing separator; "
+            "attribute dicts with nulls, falsy values 0/''/False and keys that are not identifiers ('age group', 'unit-cost', "
+            "'_flag', 'class', '2024'); malformed: wrong root, empty component, no rows; targeted strata: suffix trap "
+            "(a/xa/b + a/b, duplicates disallowed), nodup-deep (duplicates disallowed, depth >= 4, input separator != tree "
+            "separator, name repeated below a freshly created intermediate)) fed to all entry points of a family (new: "
+            "list/dict/dataframe/polars_to_tree; add: add_path_to_tree row by row + add_{dict,dataframe,polars}_to_tree_by_path "
+            "on a pre-existing tree, start node anywhere in it; name: add_*_to_tree_by_name). Hand-over options per case: "
+            "Node or a user subclass (node_type / class of the existing tree; every node of the result must have that class), "
+            "list or tuple of paths, path/name column named and placed differently, explicit path_col/name_col/attribute_cols "
+            "(reversed order, plus an unlisted column that must not show), pandas index labels unique / repeated / strings, "
+            "node_attrs omitted when empty, the same tree extended by two calls (rows split in two batches). Observed per entry "
+            "point: accept/reject, root.sep, every node in pre-order (depth, identity tag, name, complete instance dict minus the "
+            "four fields of Node itself, attrs as a map), parent/children links consistent, returned node(s); after a refused call "
+            "on an existing tree the tree is compared as well; the caller's arguments must be unchanged by the call and are "
+            "mutated afterwards (aliasing). non-trivial = non-empty row list and (an accepted call yielding >= 3 nodes or a "
+            "refused call); distinct by canonical JSON hash")
 
 
 def _components(path, sep):
@@ -628,6 +856,28 @@ def partial_clauses(prop):
         "the converse (C05_no_dup_accepts_distinct) and C05_no_dup_distinct are unguarded",
         "C05_leading_trailing_sep / C05_sep_independent / C05_parse_agrees and the umbrella theorem: single-character "
         "separators only (multi-character separators: known finding K3-C05, Example C05_multichar_sep_refuted)",
+        # deliberately accepted blind spots of the correspondence (leniency audit)
+        "BLIND SPOT exception class: only accepted/refused is compared (the property names no class); which exception a "
+        "refusal raises can change unnoticed",
+        "BLIND SPOT value canonicalisation: attribute values are folded numpy->python, integral float->int, NaN/None->null "
+        "(pandas turns an int column with nulls into floats); a change of an attribute's numeric type, or NaN versus None, is "
+        "invisible; attribute order inside a node is not compared (maps); only None/int/str/bool values are generated (no "
+        "non-integral floats, containers, float('nan') given directly)",
+        "BLIND SPOT prop_C05 is vacuous (model comparison still full) outside its guards: reserved attribute keys (name, parent, "
+        "children, sep, parents) on the unfiltered entry points are not generated at all; duplicates disallowed with names "
+        "containing the tree's own separator or a start tree with repeated names; multi-character separators only as the one "
+        "K3 witness; the empty separator never",
+        "BLIND SPOT per-entry-point Unmodelled is skipped silently: add_polars_to_tree_by_name on a frame without any "
+        "attribute column (polars raises inside rows_by_key)",
+        "BLIND SPOT double calls (same tree extended twice) are compared with the model only, prop_C05 is evaluated on single "
+        "calls; after a refused call the returned-node list is not compared",
+        "BLIND SPOT argument types not varied: generators / other iterables of paths (len() is required), dict subclasses "
+        "(OrderedDict), non-str keys or paths, frames with non-string path cells or a null path, MultiIndex / categorical / "
+        "object-mixed columns, polars LazyFrame; node_attrs values that are mutable objects",
+        "BLIND SPOT entry points of construct.py outside the property's list are never called here: str_to_tree, "
+        "nested_dict_to_tree, newick_to_tree, *_by_relation; BinaryNode / DAGNode trees as the tree being extended",
+        "BLIND SPOT assertions switched off (BIGTREE_CONF_ASSERTIONS) and trees whose sibling names are not unique are not "
+        "exercised",
     ]
 
 
